@@ -18,3 +18,4 @@ try:
 finally:
     sh('git -C /repo checkout -- .')
     print('reverted    :', sh('git -C /repo status --short').stdout.strip() or 'clean')
+    sh('cd /verif && python3 tools/translate.py')      # regenerate the models from the clean tree
